@@ -24,3 +24,5 @@ import GlareModel.Props.C20
 import GlareModel.Props.C05
 import GlareModel.Core.Csv
 import GlareModel.Props.C17
+import GlareModel.Core.Rle
+import GlareModel.Props.C10
